@@ -304,7 +304,8 @@ def run_history(comps, rng, rec, mon, n_utts):
         lc = length_classes(comp, width)
         cls = str(rng.choice(list(lc)))
         N = int(lc[cls])
-        dt = np.float32 if rng.random() < 0.3 else np.float64
+        r_dt = rng.random()
+        dt = np.float32 if r_dt < 0.3 else np.dtype(">f8") if r_dt < 0.36 else np.dtype(">f4") if r_dt < 0.4 else np.float64  # (also floats stored in the other byte order)
         x = gen.signal(rng, N, None, dt)
         x.setflags(write=False)
         kind = str(rng.choice(["chunked", "chunked", "chunked", "full", "fbf"]))
